@@ -110,3 +110,100 @@ Lemma scaleX_node r p : scaled_point r p -> scaleX r p (getNode r p) == 0.
 Proof.
   intros Hs. rewrite scaleX_affine by exact Hs. pose proof (getSupport_pos r p Hs). field. lra.
 Qed.
+
+(* ------------------------------------------------------------------------------------------------------------
+   Hierarchy facts, unbounded in the point number: a kid is one level below its parent, and the parent (or the
+   step-parent) of a kid is the point it was generated from.  (pwc, the ternary order-0 tree, is not covered.) *)
+Local Open Scope Z_scope.
+
+Definition binary_rule (r : erule) : Prop := r <> Pwc.
+
+Lemma log2_2p_m2 p : 2 <= p -> Z.log2 (2 * p - 2) = Z.log2 (p - 1) + 1.
+Proof. intros H. replace (2 * p - 2) with (2 * (p - 1)) by lia. rewrite Z.log2_double by lia. lia. Qed.
+Lemma log2_2p_m1 p : 2 <= p -> Z.log2 (2 * p - 1) = Z.log2 (p - 1) + 1.
+Proof. intros H. replace (2 * p - 1) with (2 * (p - 1) + 1) by lia. rewrite Z.log2_succ_double by lia. lia. Qed.
+Lemma log2_2p_p2 p : 0 <= p -> Z.log2 (2 * p + 2) = Z.log2 (p + 1) + 1.
+Proof. intros H. replace (2 * p + 2) with (2 * (p + 1)) by lia. rewrite Z.log2_double by lia. lia. Qed.
+Lemma log2_2p_p3 p : 0 <= p -> Z.log2 (2 * p + 3) = Z.log2 (p + 1) + 1.
+Proof. intros H. replace (2 * p + 3) with (2 * (p + 1) + 1) by lia. rewrite Z.log2_succ_double by lia. lia. Qed.
+
+Theorem kid_level r p k : binary_rule r -> 0 <= p -> (k = 0 \/ k = 1) ->
+  getKid r p k <> -1 -> getLevel r (getKid r p k) = getLevel r p + 1.
+Proof.
+  intros Hr Hp Hk. destruct r; try (exfalso; apply Hr; reflexivity).
+  - (* localp *)
+    destruct (Z.eq_dec p 0) as [->|N0]; [destruct Hk as [-> | ->]; intros _; reflexivity|].
+    destruct (Z.eq_dec p 1) as [->|N1]; [destruct Hk as [-> | ->]; cbn; intros H; try reflexivity; congruence|].
+    destruct (Z.eq_dec p 2) as [->|N2]; [destruct Hk as [-> | ->]; cbn; intros H; try reflexivity; congruence|].
+    intros _. unfold getKid, getLevel, intlog2.
+    assert (p =? 0 = false) as -> by lia. assert (p =? 1 = false) as -> by lia. assert (p =? 2 = false) as -> by lia. cbn [orb].
+    destruct Hk as [-> | ->]; cbn [Z.eqb].
+    + assert (2 * p - 1 =? 0 = false) as -> by lia. assert (2 * p - 1 =? 1 = false) as -> by lia.
+      assert (2 * p - 1 - 1 <=? 0 = false) as -> by lia. assert (p - 1 <=? 0 = false) as -> by lia.
+      replace (2 * p - 1 - 1) with (2 * p - 2) by lia. rewrite log2_2p_m2 by lia. lia.
+    + assert (2 * p =? 0 = false) as -> by lia. assert (2 * p =? 1 = false) as -> by lia.
+      assert (2 * p - 1 <=? 0 = false) as -> by lia. assert (p - 1 <=? 0 = false) as -> by lia.
+      rewrite log2_2p_m1 by lia. lia.
+  - (* semi-localp: same tree as localp *)
+    destruct (Z.eq_dec p 0) as [->|N0]; [destruct Hk as [-> | ->]; intros _; reflexivity|].
+    destruct (Z.eq_dec p 1) as [->|N1]; [destruct Hk as [-> | ->]; cbn; intros H; try reflexivity; congruence|].
+    destruct (Z.eq_dec p 2) as [->|N2]; [destruct Hk as [-> | ->]; cbn; intros H; try reflexivity; congruence|].
+    intros _. unfold getKid, getLevel, intlog2.
+    assert (p =? 0 = false) as -> by lia. assert (p =? 1 = false) as -> by lia. assert (p =? 2 = false) as -> by lia. cbn [orb].
+    destruct Hk as [-> | ->]; cbn [Z.eqb].
+    + assert (2 * p - 1 =? 0 = false) as -> by lia. assert (2 * p - 1 =? 1 = false) as -> by lia.
+      assert (2 * p - 1 - 1 <=? 0 = false) as -> by lia. assert (p - 1 <=? 0 = false) as -> by lia.
+      replace (2 * p - 1 - 1) with (2 * p - 2) by lia. rewrite log2_2p_m2 by lia. lia.
+    + assert (2 * p =? 0 = false) as -> by lia. assert (2 * p =? 1 = false) as -> by lia.
+      assert (2 * p - 1 <=? 0 = false) as -> by lia. assert (p - 1 <=? 0 = false) as -> by lia.
+      rewrite log2_2p_m1 by lia. lia.
+  - (* localp0 *)
+    intros _. unfold getKid, getLevel, intlog2.
+    assert (p + 1 <=? 0 = false) as -> by lia.
+    destruct Hk as [-> | ->]; cbn [Z.eqb].
+    + assert (2 * p + 1 + 1 <=? 0 = false) as -> by lia. replace (2 * p + 1 + 1) with (2 * p + 2) by lia. rewrite log2_2p_p2 by lia. lia.
+    + assert (2 * p + 2 + 1 <=? 0 = false) as -> by lia. replace (2 * p + 2 + 1) with (2 * p + 3) by lia. rewrite log2_2p_p3 by lia. lia.
+  - (* localpb *)
+    destruct (Z.eq_dec p 0) as [->|N0]; [destruct Hk as [-> | ->]; cbn; intros H; try reflexivity; congruence|].
+    destruct (Z.eq_dec p 1) as [->|N1]; [destruct Hk as [-> | ->]; cbn; intros H; try reflexivity; congruence|].
+    intros _. unfold getKid, getLevel, intlog2.
+    assert (p =? 0 = false) as -> by lia. assert (p =? 1 = false) as -> by lia. cbn [orb].
+    assert (p <=? 1 = false) as -> by lia. assert (p - 1 <=? 0 = false) as -> by lia.
+    destruct Hk as [-> | ->]; cbn [Z.eqb].
+    + assert (2 * p - 1 <=? 1 = false) as -> by lia. assert (2 * p - 1 - 1 <=? 0 = false) as -> by lia.
+      replace (2 * p - 1 - 1) with (2 * p - 2) by lia. rewrite log2_2p_m2 by lia. lia.
+    + assert (2 * p - 0 <=? 1 = false) as -> by lia. assert (2 * p - 0 - 1 <=? 0 = false) as -> by lia.
+      replace (2 * p - 0 - 1) with (2 * p - 1) by lia. rewrite log2_2p_m1 by lia. lia.
+Qed.
+
+Theorem kid_parent r p k : binary_rule r -> 0 <= p -> (k = 0 \/ k = 1) ->
+  getKid r p k <> -1 -> getParent r (getKid r p k) = p \/ getStepParent r (getKid r p k) = p.
+Proof.
+  intros Hr Hp Hk. destruct r; try (exfalso; apply Hr; reflexivity).
+  - destruct (Z.eq_dec p 0) as [->|N0]; [destruct Hk as [-> | ->]; intros _; left; reflexivity|].
+    destruct (Z.eq_dec p 1) as [->|N1]; [destruct Hk as [-> | ->]; cbn; intros H; [left; reflexivity|congruence]|].
+    destruct (Z.eq_dec p 2) as [->|N2]; [destruct Hk as [-> | ->]; cbn; intros H; [left; reflexivity|congruence]|].
+    intros _. left. unfold getKid, getParent.
+    assert (p =? 0 = false) as -> by lia. assert (p =? 1 = false) as -> by lia. assert (p =? 2 = false) as -> by lia. cbn [orb].
+    destruct Hk as [-> | ->]; cbn [Z.eqb].
+    + assert (2 * p - 1 <? 4 = false) as -> by lia. lia.
+    + assert (2 * p <? 4 = false) as -> by lia. lia.
+  - destruct (Z.eq_dec p 0) as [->|N0]; [destruct Hk as [-> | ->]; intros _; left; reflexivity|].
+    destruct (Z.eq_dec p 1) as [->|N1]; [destruct Hk as [-> | ->]; cbn; intros H; [left; reflexivity|congruence]|].
+    destruct (Z.eq_dec p 2) as [->|N2]; [destruct Hk as [-> | ->]; cbn; intros H; [left; reflexivity|congruence]|].
+    intros _. left. unfold getKid, getParent.
+    assert (p =? 0 = false) as -> by lia. assert (p =? 1 = false) as -> by lia. assert (p =? 2 = false) as -> by lia. cbn [orb].
+    destruct Hk as [-> | ->]; cbn [Z.eqb].
+    + assert (2 * p - 1 <? 4 = false) as -> by lia. lia.
+    + assert (2 * p <? 4 = false) as -> by lia. lia.
+  - intros _. left. unfold getKid, getParent. destruct Hk as [-> | ->]; cbn [Z.eqb].
+    + assert (2 * p + 1 =? 0 = false) as -> by lia. lia.
+    + assert (2 * p + 2 =? 0 = false) as -> by lia. lia.
+  - destruct (Z.eq_dec p 0) as [->|N0]; [destruct Hk as [-> | ->]; cbn; intros H; [right; reflexivity|congruence]|].
+    destruct (Z.eq_dec p 1) as [->|N1]; [destruct Hk as [-> | ->]; cbn; intros H; [left; reflexivity|congruence]|].
+    intros _. left. unfold getKid, getParent.
+    assert (p =? 0 = false) as -> by lia. assert (p =? 1 = false) as -> by lia. cbn [orb].
+    destruct Hk as [-> | ->]; cbn [Z.eqb].
+    + assert (2 * p - 1 <? 2 = false) as -> by lia. lia.
+    + assert (2 * p - 0 <? 2 = false) as -> by lia. lia.
+Qed.
